@@ -228,6 +228,20 @@ def one_case(arg):
                     if tf.errors:
                         out["viol"].append(("C19/fault/exit-0-with-malformed-table", dict(ctx, rule=rule, errors=tf.errors[:2], out=rf.out[:160])))
                 out["fault_runs"] = out.get("fault_runs", 0) + 1
+        if idx % 6 == 1:
+            # stdout that stops accepting bytes at a line boundary of the report (full disk, quota): the run may fail, but one
+            # that reports success must have delivered the complete, well-formed report
+            for fmt in (["-v"], ["--json"], ["--json", "--json-version=2"]):
+                argv_ = fmt + ["--no-progress"] + sel + roots
+                base_, sweep = R.output_limit_sweep(sz, gitdir, argv_, tmpdir=d, max_points=24, rng=rng)
+                for n_, r_, w_ in sweep:
+                    out["evals"] += 1
+                    out["limited_stdout_runs"] = out.get("limited_stdout_runs", 0) + 1
+                    if r_.rc == 0 and not r_.timed_out and r_.out != base_:
+                        what = "table" if fmt == ["-v"] else "json"
+                        out["viol"].append(("C19/output-limit/exit-0-with-incomplete-" + what,
+                                            dict(ctx, argv=argv_, limit=n_, accepted=w_, full_length=len(base_),
+                                                 tail=r_.out[-200:].decode("utf-8", "replace"))))
         out["sample"] = {"profile": prof, "refs": [x.decode("utf-8", "replace") for x in sorted(ok_refs)][:3], "roots": roots,
                          "refgroup_symbols": syms, "citations_in_table": out["cites"]}
     finally:
@@ -264,6 +278,8 @@ def run(chk, b, tier):
             chk.nontrivial(("case", i))
         if r["cites"] >= 10:
             chk.bump("tables_with_10_or_more_citations")
+        chk.bump("limited_stdout_runs", r.get("limited_stdout_runs", 0))
+        chk.bump("runs_with_an_injected_git_fault", r.get("fault_runs", 0))
         if r["sample"]:
             profs[r["sample"]["profile"]] = profs.get(r["sample"]["profile"], 0) + 1
             chk.sample(r["sample"], limit=5)
@@ -276,6 +292,8 @@ def run(chk, b, tier):
                        "metrics share a witness. --json v1/v2: strictly valid UTF-8 JSON, key set as derived from the model "
                        "(witness keys present iff cited; v2: the 22 metric symbols with fixed member keys; per-refgroup entries "
                        "exempt); -v table: parsed on bytes: every citation has exactly one footnote, every footnote is cited, "
-                       "numbered 1..k in order of first citation, identical texts share a number. Non-trivial: >=2 citations.")
+                       "numbered 1..k in order of first citation, identical texts share a number. Under injected git faults and with "
+                       "stdout limited (sealed memfd) to each line boundary of the report: exit 0 only with the complete well-formed "
+                       "report, nothing half-written passes as success. Non-trivial: >=2 citations.")
     chk.assumptions += ["display names ending in a citation-shaped token are indistinguishable from a citation by construction and "
                         "are not generated at the end of a name"]
